@@ -268,6 +268,8 @@ theorem sorted_eq_of {l s : List Rat} (hp : s.Perm l) (hs : s.Pairwise (fun a b 
   · exact hs
   · exact (sorted_perm_self l).trans hp.symm
 
+theorem sorted_length (l : List Rat) : (sorted l).length = l.length := (sorted_perm_self l).length_eq
+
 theorem quantile_perm (q : Rat) {l₁ l₂ : List Rat} (h : l₁.Perm l₂) : quantile q l₁ = quantile q l₂ := by
   simp only [quantile, sorted_perm h]
 
@@ -282,6 +284,60 @@ theorem evalStat_perm (sqrtF : Rat → Rat) (k qlo qhi : Rat) (e : Gen.StatExpr)
   | minusK a b iha ihb => simp only [evalStat, iha, ihb]
   | plusK a b iha ihb => simp only [evalStat, iha, ihb]
 
-theorem sorted_length (l : List Rat) : (sorted l).length = l.length := (sorted_perm_self l).length_eq
+
+/-! ### NumPy's linear-interpolation quantile at 0, 1/2, 1 -/
+
+theorem floor_natCast (k : Nat) : Rat.floor (k : Rat) = (k : Int) := by
+  have : (k : Rat) = ((k : Int) : Rat) := by norm_cast
+  rw [this, Rat.floor_intCast]
+
+theorem floor_zero : Rat.floor 0 = 0 := by
+  have := floor_natCast 0
+  simpa using this
+
+/-- `quantile 0` is the minimum (first element of the sorted members). -/
+theorem quantile_zero (l : List Rat) : quantile 0 l = (sorted l).getD 0 0 := by
+  simp [quantile, floor_zero]
+  grind
+
+/-- `quantile 1` is the maximum (last element of the sorted members). -/
+theorem quantile_one (l : List Rat) : quantile 1 l = (sorted l).getD ((sorted l).length - 1) 0 := by
+  simp [quantile, floor_natCast]
+  grind
+
+/-- floor of `m + 1/2` -/
+theorem floor_half (m : Nat) : Rat.floor ((m : Rat) + 1/2) = (m : Int) := by
+  have h1 : (m : Int) ≤ Rat.floor ((m : Rat) + 1/2) := by
+    rw [Rat.le_floor_iff]
+    have : ((m : Int) : Rat) = (m : Rat) := by norm_cast
+    rw [this]; grind
+  have h2 : Rat.floor ((m : Rat) + 1/2) < (m : Int) + 1 := by
+    have hle := Rat.floor_le ((m : Rat) + 1/2)
+    have hlt : ((Rat.floor ((m : Rat) + 1/2) : Int) : Rat) < (((m : Int) + 1 : Int) : Rat) := by
+      have : (((m : Int) + 1 : Int) : Rat) = (m : Rat) + 1 := by norm_cast
+      rw [this]; grind
+    exact Rat.intCast_lt_intCast.mp hlt
+  omega
+
+/-- odd number of members: the median is the middle element of the sorted members -/
+theorem median_odd (l : List Rat) (m : Nat) (h : l.length = 2 * m + 1) : median l = (sorted l).getD m 0 := by
+  have hs : (sorted l).length = 2 * m + 1 := by rw [sorted_length, h]
+  have hidx : (1 / 2 : Rat) * ((2 * m + 1 - 1 : Nat) : Rat) = (m : Rat) := by
+    have : (2 * m + 1 - 1 : Nat) = 2 * m := by omega
+    rw [this, Rat.natCast_mul]; grind
+  simp only [median, quantile, hs, hidx, floor_natCast]
+  simp
+  grind
+
+/-- even number of members: the median is the mean of the two middle elements -/
+theorem median_even (l : List Rat) (m : Nat) (h : l.length = 2 * m + 2) :
+    median l = ((sorted l).getD m 0 + (sorted l).getD (m + 1) 0) / 2 := by
+  have hs : (sorted l).length = 2 * m + 2 := by rw [sorted_length, h]
+  have hidx : (1 / 2 : Rat) * ((2 * m + 2 - 1 : Nat) : Rat) = (m : Rat) + 1/2 := by
+    have : (2 * m + 2 - 1 : Nat) = 2 * m + 1 := by omega
+    rw [this, Rat.natCast_add, Rat.natCast_mul]; grind
+  simp only [median, quantile, hs, hidx, floor_half]
+  simp
+  grind
 
 end StarsimModel.MultiRun
